@@ -79,6 +79,9 @@ def handle (op : String) (a : Json) : Except String Json := do
   match op with
   | "group" =>
     return valJ (Json.mkObj [("groups", groupsJ (group n adj)), ("calls", pairsJ (pairs n))])
+  | "group_only" =>
+    -- large inputs: the groups alone (the calls are `pairs n`, not sent back)
+    return valJ (Json.mkObj [("groups", groupsJ (group n adj))])
   | "group_loop" =>
     -- the final loop of the code, literally (equal to `group` by theorem C13_loop)
     return valJ (groupsJ (groupLoop (labelAt (labelList n adj)) n))
@@ -95,9 +98,14 @@ def handle (op : String) (a : Json) : Except String Json := do
     let marr : Array (Array Int) := (rows.map List.toArray).toArray
     let m : Nat → Nat → Bool := fun x y => ((marr.getD x #[]).getD y 0) != 0
     let loop := groupLoop (fun x => labs.getD x 0) n
-    -- `dense n adj x y = (coo n adj).count (x, y)` by definition; the coordinate list is computed once
+    -- `dense n adj x y = (coo n adj).count (x, y)` by definition; the coordinate list is computed once and
+    -- split by row first (`GroupingLemmas.dense_row`: counting in the row's sub-list gives the same number)
     let c := coo n adj
-    let d : Nat → Nat → Nat := fun x y => c.count (x, y)
+    let byRow : Array (List (Nat × Nat)) := (Array.range n).map fun x => c.filter fun e => e.1 == x
+    let dm : Array (Array Nat) := (Array.range n).map fun x =>
+      let r := byRow.getD x []
+      (Array.range n).map fun y => r.count (x, y)
+    let d : Nat → Nat → Nat := fun x y => (dm.getD x #[]).getD y 0
     let drows := (List.range n).map fun x => (List.range n).map fun y => Int.ofNat (d x y)
     return Json.mkObj [
       ("matrix", boolJ (rows == drows)),
